@@ -76,6 +76,99 @@ def remove_log_statements(text, rewrites, where):
     return ''.join(out)
 
 
+def _cfg_eval(pred, cfg):
+    """Evaluate a cfg predicate string under cfg = {'target_os': 'linux', 'features': set(), 'flags': set()}"""
+    pred = pred.strip()
+    m = re.match(r'^(any|all|not)\s*\((.*)\)$', pred, flags=re.S)
+    if m:
+        # split args at depth 0
+        args, depth, cur = [], 0, ''
+        for ch in m.group(2):
+            if ch == '(':
+                depth += 1
+            elif ch == ')':
+                depth -= 1
+            if ch == ',' and depth == 0:
+                args.append(cur)
+                cur = ''
+            else:
+                cur += ch
+        if cur.strip():
+            args.append(cur)
+        vals = [_cfg_eval(a, cfg) for a in args]
+        if m.group(1) == 'any':
+            return any(vals)
+        if m.group(1) == 'all':
+            return all(vals)
+        return not vals[0]
+    m = re.match(r'^([a-z_]+)\s*=\s*"([^"]*)"$', pred)
+    if m:
+        if m.group(1) == 'feature':
+            return m.group(2) in cfg['features']
+        return cfg.get(m.group(1)) == m.group(2)
+    return pred in cfg['flags']
+
+
+CFG = {'target_os': 'linux', 'target_family': 'unix', 'features': set(), 'flags': {'unix'}}
+
+
+def apply_cfg(text, rewrites, where, cfg=None):
+    """R6: resolve statement-level #[cfg(..)] attributes inside an item for the single
+    configuration that is verified (target_os = "linux", listed features)."""
+    cfg = cfg or CFG
+    out = []
+    pos = 0
+    pat = re.compile(r'#\[cfg\(')
+    while True:
+        m = pat.search(text, pos)
+        if not m:
+            out.append(text[pos:])
+            break
+        close = match_close(text, m.end() - 1)       # matching ')'
+        pred = text[m.end():close - 1]
+        j = close
+        while j < len(text) and text[j] in ' \t':
+            j += 1
+        if j >= len(text) or text[j] != ']':
+            out.append(text[pos:close])
+            pos = close
+            continue
+        attr_end = j + 1
+        keep = _cfg_eval(pred, cfg)
+        # the attributed statement / block
+        k = attr_end
+        while k < len(text) and text[k].isspace():
+            k += 1
+        if text[k] == '{':
+            stmt_end = match_close(text, k)
+        else:
+            depth = 0
+            stmt_end = None
+            for kind, a, b in tokens(text, k):
+                if kind == 'open':
+                    depth += 1
+                elif kind == 'close':
+                    depth -= 1
+                    if depth < 0:
+                        stmt_end = a
+                        break
+                elif kind == 'punct' and text[a] == ';' and depth == 0:
+                    stmt_end = b
+                    break
+                elif kind == 'punct' and text[a] == ',' and depth == 0:
+                    stmt_end = b
+                    break
+            if stmt_end is None:
+                stmt_end = len(text)
+        out.append(text[pos:m.start()])
+        if keep:
+            out.append(text[k:stmt_end])
+        rewrites.append({'tag': 'R6', 'where': where, 'before': '#[cfg(%s)] %s' % (pred, text[k:stmt_end].strip()[:80]),
+                         'after': 'kept' if keep else 'dropped'})
+        pos = stmt_end
+    return ''.join(out)
+
+
 class Item:
     def __init__(self, path, kind, name, within=None, newname=None, line=0):
         self.path, self.kind, self.name = path, kind, name
@@ -90,6 +183,7 @@ class Item:
         self.sigsubs = []
         self.keep_derives = False
         self.keep_vis = False
+        self.pre = []
         self.line = line
 
 
@@ -130,6 +224,8 @@ def parse_sidecar(path):
             elif key == 'ret':
                 item.ret = rest.strip()
                 cur = None
+            elif key == 'pre':
+                cur = item.pre
             elif key == 'spec':
                 cur = item.spec
             elif key == 'loop':
@@ -334,6 +430,8 @@ def build(repo, sidecar_path, extra_spec=None):
         # -- rewrites on the repository text
         if item.kind == 'fn':
             text = remove_log_statements(text, g.rewrites, where)
+            if '#[cfg(' in text:
+                text = apply_cfg(text, g.rewrites, where, getattr(unit, 'cfg', None))
         for (tag, count, k, frm, to) in item.subs:
             if k == 'lit':
                 c = text.count(frm)
@@ -361,7 +459,7 @@ def build(repo, sidecar_path, extra_spec=None):
                 # R9: derive list filtered to what Verus understands; Structural added so
                 # that exec `==` on the type is spec equality.
                 names = [x.strip() for x in a[a.index('(') + 1:a.rindex(')')].split(',')]
-                kept = [x for x in names if x in ('Debug', 'Copy', 'Clone', 'PartialEq', 'Eq')]
+                kept = [x for x in names if x in ('Debug', 'Copy', 'Clone', 'PartialEq', 'Eq', 'Hash')]
                 if 'PartialEq' in kept:
                     kept.append('Structural')
                 if kept:
@@ -418,6 +516,9 @@ def build(repo, sidecar_path, extra_spec=None):
             if item.wrap:
                 g.add(item.wrap + ' {', lambda i: ('gen',))
             open_wrap = item.wrap
+        for (l, ln) in item.pre:
+            g.lines.append(l)
+            g.origin.append(('spec', sc, ln))
         first = len(g.lines) + 1
         for a in keep_attrs + item.attrs:
             g.add(a, lambda i: ('gen',))
